@@ -54,12 +54,13 @@ theorem set_frame_get (d : Desc) (a a' : Attrs) (v : PyVal P) (h : set P d a v =
   rw [← Attrs.get_pop_other a' d.attr k hk, this, Attrs.get_pop_other a d.attr k hk]
 
 /-- reading back is a fixpoint: the value read back is again valid and denotes itself -/
-theorem valid_denote (hP : P.Lawful) (d : Desc) (hd : d.wf = true) (v : PyVal P) (hv : valid P d v = true) :
+theorem valid_denote (hP : P.Lawful) (d : Desc) (hd : d.wf = true) (v : PyVal P) (hv : valid P d v = true)
+    (hst : stableAt P d v = true) :
     valid P d (denote P d v) = true ∧ denote P d (denote P d v) = denote P d v := by
   obtain ⟨kind, a, w⟩ := d
   cases v with
   | none =>
-    cases kind <;> simp_all [valid, denote, defaultVal, Desc.wf, htmlValid, hP.repair_nil, xmlOk]
+    cases kind <;> simp_all [valid, denote, defaultVal, Desc.wf, htmlValid, htmlStable, hP.repair_nil, xmlOk]
     rename_i e n
     cases hx : e.byName n <;> simp_all
   | bool b =>
@@ -75,7 +76,7 @@ theorem valid_denote (hP : P.Lawful) (d : Desc) (hd : d.wf = true) (v : PyVal P)
     cases kind <;> simp_all [valid, denote]
     · cases hr : P.repair s with
       | none => simp_all [htmlValid]
-      | some r => simp_all [htmlValid, hP.repair_idem s r hr]
+      | some r => simp_all [htmlValid, htmlStable, stableAt]
     · rename_i e n
       cases hx : e.byName s <;> simp_all
   | member c m x => cases kind <;> simp_all [valid, denote]
